@@ -926,4 +926,135 @@ mut("prov: parent recorded on one arm only of an if/else", ["R-PROV"],
                     operator="depending on not being empty"''', '''                    left_parent=self.raw_nb_of_instances,
                     operator="max"''')], ["fixed_nb_of_instances"])
 
+# ------------------------------------------------------------------------------------------------ more refactoring twins
+twin("twin: accumulation written as x = x + term", ["R-ACCUM", "R-PROV", "R-DEG"],
+     [(ST, "                storage_needed += job.hourly_data_stored_across_usage_patterns",
+       "                storage_needed = storage_needed + job.hourly_data_stored_across_usage_patterns")])
+twin("twin: loop variable name reused by a later loop", ["R-LEAK", "R-ACCUM"],
+     [(NW, "        for up in self.usage_patterns:\n            up_network_consumption", "        for up in list(self.usage_patterns):\n            up_network_consumption")])
+twin("twin: no-op test written the other way round", ["R-NOOP", "R-LIVE"],
+     [(MU, "            if old_value == new_value:", "            if new_value == old_value:")])
+twin("twin: rollback renamed", ["R-TXN", "R-ZIP"],
+     [(MU, "            self.rollback()", "            self.restore_replaced_values()"),
+      (MU, "    def rollback(self):", "    def restore_replaced_values(self):")])
+twin("twin: all() given a generator in attr_updates_chain", ["R-CHAIN"],
+     [(EB, '''                        if all([has_been_added_to_chain_dict[ancestor.id]
+                                for ancestor in ancestors_that_belong_to_self_descendants]):''',
+       '''                        if all(has_been_added_to_chain_dict[ancestor.id]
+                               for ancestor in ancestors_that_belong_to_self_descendants):''')])
+twin("twin: parenthesis table uses tuples", ["R-PAREN"],
+     [(EB, '''tuple_element[2][1] in ["+", "-"]:''', '''tuple_element[2][1] in ("+", "-"):''')])
+twin("twin: on-premise branches inverted", ["R-PROV", "R-BOUND", "R-LABEL", "R-WRITE"],
+     [(SB, '''            if not isinstance(self.fixed_nb_of_instances, EmptyExplainableObject):
+                if max_nb_of_instances > self.fixed_nb_of_instances:
+                    raise ValueError(
+                        f"The number of {self.name} instances computed from its resources need is superior to the "
+                        f"number of instances specified by the user "
+                        f"({max_nb_of_instances.value} > {self.fixed_nb_of_instances})")
+                else:
+                    fixed_nb_of_instances_df = pd.DataFrame(
+                        {"value": pint_pandas.PintArray(
+                            np.full(len(self.raw_nb_of_instances), self.fixed_nb_of_instances.value),
+                            dtype=u.dimensionless
+                        )},
+                        index=self.raw_nb_of_instances.value.index
+                    )
+                    nb_of_instances = ExplainableHourlyQuantities(
+                        fixed_nb_of_instances_df,
+                        "Nb of instances",
+                        left_parent=self.raw_nb_of_instances,
+                        right_parent=self.fixed_nb_of_instances
+                    )
+            else:
+                nb_of_instances_df = pd.DataFrame(
+                    {"value": pint_pandas.PintArray(
+                        max_nb_of_instances.magnitude * np.ones(len(self.raw_nb_of_instances)), dtype=u.dimensionless)},
+                    index=self.raw_nb_of_instances.value.index
+                )
+
+                nb_of_instances = ExplainableHourlyQuantities(
+                    nb_of_instances_df,
+                    f"Hourly number of {self.name} instances",
+                    left_parent=self.raw_nb_of_instances,
+                    right_parent=self.fixed_nb_of_instances,
+                    operator="depending on not being empty"
+                )
+''', '''            if isinstance(self.fixed_nb_of_instances, EmptyExplainableObject):
+                nb_of_instances_df = pd.DataFrame(
+                    {"value": pint_pandas.PintArray(
+                        max_nb_of_instances.magnitude * np.ones(len(self.raw_nb_of_instances)), dtype=u.dimensionless)},
+                    index=self.raw_nb_of_instances.value.index
+                )
+
+                nb_of_instances = ExplainableHourlyQuantities(
+                    nb_of_instances_df,
+                    f"Hourly number of {self.name} instances",
+                    left_parent=self.raw_nb_of_instances,
+                    right_parent=self.fixed_nb_of_instances,
+                    operator="depending on not being empty"
+                )
+            else:
+                if max_nb_of_instances > self.fixed_nb_of_instances:
+                    raise ValueError(
+                        f"The number of {self.name} instances computed from its resources need is superior to the "
+                        f"number of instances specified by the user "
+                        f"({max_nb_of_instances.value} > {self.fixed_nb_of_instances})")
+                fixed_nb_of_instances_df = pd.DataFrame(
+                    {"value": pint_pandas.PintArray(
+                        np.full(len(self.raw_nb_of_instances), self.fixed_nb_of_instances.value),
+                        dtype=u.dimensionless
+                    )},
+                    index=self.raw_nb_of_instances.value.index
+                )
+                nb_of_instances = ExplainableHourlyQuantities(
+                    fixed_nb_of_instances_df,
+                    "Nb of instances",
+                    left_parent=self.raw_nb_of_instances,
+                    right_parent=self.fixed_nb_of_instances
+                )
+''')])
+twin("twin: delay loop variables renamed", ["R-DELAY", "R-ACCUM", "R-PROV"],
+     [(JOB, '''        for uj_step in usage_pattern.usage_journey.uj_steps:
+            for uj_step_job in uj_step.jobs:
+                if uj_step_job == self:
+                    job_occurrences += usage_pattern.utc_hourly_usage_journey_starts.return_shifted_hourly_quantities(
+                        delay_between_uj_start_and_job_evt)
+
+            delay_between_uj_start_and_job_evt += uj_step.user_time_spent''',
+       '''        for step in usage_pattern.usage_journey.uj_steps:
+            for step_job in step.jobs:
+                if step_job == self:
+                    job_occurrences += usage_pattern.utc_hourly_usage_journey_starts.return_shifted_hourly_quantities(
+                        delay_between_uj_start_and_job_evt)
+
+            delay_between_uj_start_and_job_evt += step.user_time_spent''')])
+twin("twin: allowed-values test without .keys()", ["R-VAL-AUTH"],
+     [(MO, "        if name in list_values.keys():", "        if name in list_values:")])
+twin("twin: validation hoisted into a local before assigning", ["R-RULE-TXN", "R-PROV", "R-LABEL"],
+     [(SB, '''        if available_ram_per_instance.value < 0 * u.B:''', '''        ram_is_overbooked = available_ram_per_instance.value < 0 * u.B
+        if ram_is_overbooked:''')])
+twin("twin: JSON loader local renamed", ["R-JSON-LOAD"],
+     [(J2S, '''                    output_val = []
+                    for elt in attr_value:
+                        if type(elt) == str and elt in flat_obj_dict.keys():
+                            output_val.append(flat_obj_dict[elt])
+                    mod_obj.__setattr__(attr_key, ListLinkedToModelingObj(output_val), check_input_validity=False)''',
+       '''                    linked_objects = [flat_obj_dict[elt] for elt in attr_value
+                                      if type(elt) == str and elt in flat_obj_dict.keys()]
+                    mod_obj.__setattr__(attr_key, ListLinkedToModelingObj(linked_objects), check_input_validity=False)''')])
+twin("twin: np_compared_with raises first, then one return", ["R-SUMMARY", "R-OPPAR", "R-RAW2", "R-MAG"],
+     [(EO, '''        if comparator not in ["max", "min"]:
+            raise ValueError(f"Comparator {comparator} not implemented in np_compared_with method")
+''', '''        if comparator not in ("max", "min"):
+            raise ValueError(f"Comparator {comparator} not implemented in np_compared_with method")
+''')])
+twin("twin: sum of device powers written as an accumulation loop", ["R-PROV", "R-DEG", "R-ACCUM", "R-LEAK"],
+     [(UP, '''        total_devices_energy_spent_over_one_full_hour = sum(
+            [device.power for device in self.devices]) * ExplainableQuantity(1 * u.hour, "one full hour")''',
+       '''        total_devices_power = EmptyExplainableObject()
+        for device in self.devices:
+            total_devices_power += device.power
+        total_devices_energy_spent_over_one_full_hour = total_devices_power * ExplainableQuantity(
+            1 * u.hour, "one full hour")''')])
+
 VARIANTS = [v for v in V if v is not None]
